@@ -200,6 +200,38 @@ theorem arange_int_value (start step : ℚ) (h1 : start.den = 1) (h2 : step.den 
   push_cast
   rw [e1, e2]
 
+/-! ### the constructors read no array at all -/
+
+theorem fullLit_noSub (dt : String) (fill e : SExpr) (h : fullLit dt fill = some e) : hasSub e = false := by
+  cases fill <;> simp only [fullLit, Option.some.injEq, reduceCtorEq] at h
+  case int n => subst h; split_ifs <;> rfl
+  case bool v => subst h; split_ifs <;> rfl
+  case rat p q =>
+    by_cases hq : q = 0
+    · simp [hq] at h
+    simp only [hq, if_false, Option.some.injEq] at h
+    subst h; split_ifs <;> rfl
+  case nan =>
+    split_ifs at h
+    simp only [Option.some.injEq] at h
+    subst h; rfl
+
+theorem constructors_no_accesses (env : Env) :
+    (∀ dt fill e, fullLit dt fill = some e → accesses env e = []) ∧
+    (∀ k, accesses env (eyeExpr k) = []) ∧
+    (∀ isInt start stop step shape e, arange isInt start stop step = some (shape, e) →
+      accesses env e = []) := by
+  refine ⟨fun dt fill e h => accesses_nil_of_noSub e env (fullLit_noSub dt fill e h),
+    fun k => accesses_nil_of_noSub _ env rfl, ?_⟩
+  intro isInt start stop step shape e h
+  unfold arange at h
+  split_ifs at h
+  simp only [Option.some.injEq, Prod.mk.injEq] at h
+  obtain ⟨_, he⟩ := h
+  subst he
+  apply accesses_nil_of_noSub
+  cases isInt <;> rfl
+
 /-! ### CSR sparse matrix product -/
 
 theorem toRat_of_toInt {x : Val} {n : Int} (h : x.toInt? = some n) : x.toRat? = some (n : ℚ) := by
@@ -432,7 +464,7 @@ theorem csrMatmulV_toRat (h : CsrOK nrows ncols nnz ev ec rs b R C E B) {r : Nat
     intro k hk
     obtain ⟨_, hpn⟩ := h.pos hr hk
     rw [(h.ec_col _ hpn).1]
-    simp only [Val.toInt?, Option.some.injEq, Nat.cast_inj]
+    simp only [Option.some.injEq, Nat.cast_inj]
     by_cases hc : C (R r + (k : Int)).toNat = j
     · rw [if_pos hc, if_pos hc]; exact h.ev_num _ hpn
     · rw [if_neg hc, if_neg hc]; simp [Val.toRat?]
@@ -457,6 +489,71 @@ theorem csrExpr_sound (h : CsrOK nrows ncols nnz ev ec rs b R C E B) {binds : Li
       (fun k => E (R r + (k : Int)).toNat) (fun j => B (j :: rest))]
     intro k hk
     exact (h.ec_col _ (h.pos hr hk).2).2
+
+/-! #### accesses of the lowered CSR product -/
+
+theorem accesses_sub_gen (env : Env) (nm : String) (ix : List SExpr) (arr : Arr Val) (j : Idx)
+    (harr : env.lookupArr nm = some arr) (hj : toNatIdx (evalList env ix) = some j)
+    (hin : inB arr.shape j = true) :
+    accesses env (.sub nm ix)
+      = accessesList env ix ++ [⟨nm, evalList env ix, !hasSubList ix, true⟩] := by
+  simp [accesses, harr, hj, hin]
+
+theorem accesses_reduce_of (env : Env) (op : RedOp) (v : String) (lo hi body : SExpr) (l h : Int)
+    (hl : eval env lo = .i l) (hh : eval env hi = .i h) :
+    accesses env (.reduce op v lo hi body)
+      = accesses env lo ++ accesses env hi ++
+        (List.range (h - l).toNat).flatMap fun (k : Nat) => accesses (env.bind v (l + (k : Int))) body := by
+  simp only [accesses, hl, hh, Val.toInt?]
+
+/-- every access of the lowered CSR product is in bounds — the reads of
+    `row_starts[_0]`, `row_starts[_0 + 1]`, `elem_values[_r0]`,
+    `elem_col_indices[_r0]` are affine; the read of `b[elem_col_indices[_r0], …]`
+    is the (only) data-dependent one, and in bounds because the column indices are -/
+theorem csrExpr_accesses (h : CsrOK nrows ncols nnz ev ec rs b R C E B)
+    {binds : List (String × Arr Val)} (hb : CsrBinds binds ev ec rs b) (i : Idx)
+    (hi : inB (nrows :: b.shape.tail) i = true) :
+    ∀ acc ∈ accesses (idxEnv i binds) (csrExpr b.shape.length),
+      acc.ok = true ∧ (acc.name ≠ "_in3" → acc.affine = true) := by
+  match i, hi with
+  | [], hi => simp [inB] at hi
+  | r :: rest, hi =>
+    obtain ⟨hr, hrest⟩ := inB_cons.mp hi
+    obtain ⟨a0, a1, hlo, hhi⟩ := csr_bounds_eval h hb (rest := rest) hr
+    have l2 : (idxEnv (r :: rest) binds).lookupArr "_in2" = some rs := hb.h2
+    intro acc hacc
+    unfold csrExpr at hacc
+    rw [accesses_reduce_of _ _ _ _ _ _ _ _ hlo hhi, List.mem_append, List.mem_append] at hacc
+    rcases hacc with (hacc | hacc) | hacc
+    · rw [accesses_sub_ok _ "_in2" _ rs [r] rfl l2 (by rw [evalList_eq_map, a0, toNatIdx_map_i])
+        (by rw [h.rsS]; exact inB_single.mpr (by omega))] at hacc
+      simp only [List.mem_singleton] at hacc
+      subst hacc; exact ⟨rfl, fun _ => rfl⟩
+    · rw [accesses_sub_ok _ "_in2" _ rs [r + 1] rfl l2 (by rw [evalList_eq_map, a1, toNatIdx_map_i])
+        (by rw [h.rsS]; exact inB_single.mpr (by omega))] at hacc
+      simp only [List.mem_singleton] at hacc
+      subst hacc; exact ⟨rfl, fun _ => rfl⟩
+    · obtain ⟨k, hk, hacc⟩ := List.mem_flatMap.mp hacc
+      have hk' : k < (R (r + 1) - R r).toNat := List.mem_range.mp hk
+      obtain ⟨hv, _, _, hix, hin, _⟩ := csr_body_eval h hb hr hrest hk'
+      obtain ⟨_, hpn⟩ := h.pos hr hk'
+      have l0 : ((idxEnv (r :: rest) binds).bind "_r0" (R r + (k : Int))).lookupArr "_in0" = some ev := hb.h0
+      have l1 : ((idxEnv (r :: rest) binds).bind "_r0" (R r + (k : Int))).lookupArr "_in1" = some ec := hb.h1
+      have l3 : ((idxEnv (r :: rest) binds).bind "_r0" (R r + (k : Int))).lookupArr "_in3" = some b := hb.h3
+      have hns : hasSubList ((List.range (b.shape.length - 1)).map fun d => ivar (d + 1)) = false :=
+        hasSubList_map_range _ _ fun _ => rfl
+      rw [accesses, accesses_sub_ok _ "_in0" _ ev _ rfl l0 (by rw [evalList_eq_map, hv, toNatIdx_map_i])
+          (by rw [h.evS]; exact inB_single.mpr hpn),
+        accesses_sub_gen _ "_in3" _ b _ l3 (by rw [evalList_eq_map, hix, toNatIdx_map_i]) hin,
+        accessesList, accessesList_nil_of_noSub _ _ hns,
+        accesses_sub_ok _ "_in1" _ ec _ rfl l1 (by rw [evalList_eq_map, hv, toNatIdx_map_i])
+          (by rw [h.ecS]; exact inB_single.mpr hpn)] at hacc
+      simp only [List.append_nil, List.cons_append,
+        List.nil_append, List.mem_cons, List.not_mem_nil, or_false] at hacc
+      rcases hacc with hacc | hacc | hacc
+      · subst hacc; exact ⟨rfl, fun _ => rfl⟩
+      · subst hacc; exact ⟨rfl, fun _ => rfl⟩
+      · subst hacc; exact ⟨rfl, fun hne => absurd rfl hne⟩
 
 end csr
 
